@@ -74,6 +74,15 @@ def chain_oracle(case, obs, aspects):
     shared = {}
     for n, t in got.items():
         shared[t['canon']] = shared.get(t['canon'], 0) + 1
+    if 'keys' in aspects:
+        from .gen_pipeline import ref_keys
+        from . import oracle_frozen as fz
+        keys = ref_keys(exp)
+        for n, e in exp.items():
+            if got[n]['key'] != keys[n]:
+                return f'task {n}: key {got[n]["key"]} differs from the frozen 1.4.0 scheme {keys[n]}'
+            if e['data'] != 'memory' and got[n]['path'] != fz.location(e['slug'], keys[n], e['data']):
+                return f'task {n}: location {got[n]["path"]} differs from the frozen layout {fz.location(e["slug"], keys[n], e["data"])}'
     for n, e in exp.items():
         g = got[n]
         if 'params' in aspects:
@@ -149,12 +158,12 @@ class ChainBuild(Suite):
                 chain = cfg.chain()
             except CONSTRUCTION_ERRORS as e:
                 return dict(error=type(e).__name__, text=str(e)[:200])
-            return pl.observe_chain(chain)
+            return pl.observe_chain(chain, with_paths=True)
 
     def encode(self, case, obs):
         return cpair(pl.cworld(case, 'M'), pl.cbase(case['base'], 'M')), cobs(obs)
 
-    aspects = ('tasks', 'edges', 'params', 'conflict')
+    aspects = ('tasks', 'edges', 'params', 'conflict', 'keys')
 
     def oracle(self, case, obs):
         return chain_oracle(case, obs, self.aspects)
